@@ -66,8 +66,8 @@ pub fn float_pool() -> Vec<f64> {
         1.7976931348623157e308,
     ];
     for p in [7, 8, 15, 16, 31, 32, 53, 63, 64] {
-        v.push(2f64.powi(p));
-        v.push(-(2f64.powi(p)));
+        v.push(crate::refnum::pow2(p as u32));
+        v.push(-(crate::refnum::pow2(p as u32)));
     }
     v
 }
